@@ -138,11 +138,18 @@ func runC11(ctx *harness.Ctx) {
 		kind := rapid.SampledFrom([]string{"statement", "statement", "ddl", "dml"}).Draw(t, "listkind")
 		le := map[string]string{"statement": "ParseStatements", "ddl": "ParseDDLs", "dml": "ParseDMLs"}[kind]
 		n := rapid.IntRange(0, 5).Draw(t, "n")
+		many := rapid.IntRange(0, 19).Draw(t, "many") == 0
+		if many {
+			// long lists of short statements: state carried across the statements of one call
+			n = rapid.IntRange(30, 140).Draw(t, "n.many")
+			ctx.Class("many-statements")
+		}
 		var b strings.Builder
 		if rapid.IntRange(0, 4).Draw(t, "leading") == 0 {
 			b.WriteString(rapid.SampledFrom(seps).Draw(t, "lead"))
 		}
 		broken, trailingComma := false, false
+		dominant := 0
 		for i := 0; i < n; i++ {
 			if i > 0 {
 				b.WriteString(rapid.SampledFrom(seps).Draw(t, "sep"))
@@ -152,7 +159,30 @@ func runC11(ctx *harness.Ctx) {
 				k = rapid.SampledFrom([]string{"query", "query", "ddl", "dml", "call"}).Draw(t, "k")
 			}
 			var s string
-			switch rapid.IntRange(0, 9).Draw(t, "src") {
+			srcKind := rapid.IntRange(0, 9).Draw(t, "src")
+			if many {
+				srcKind = 10
+			}
+			switch srcKind {
+			case 10:
+				// one dominant short statement repeated most of the time (hundreds of tuples / constructors / subscripts in one call)
+				var pool []string
+				if kind == "ddl" {
+					pool = []string{"DROP TABLE t", "CREATE TABLE t (a INT64 DEFAULT ((1, 2).x)) PRIMARY KEY (a)", "CREATE INDEX i ON t (a)", "ALTER TABLE t ADD COLUMN c STRUCT<a.b, ARRAY<INT64>>"}
+				} else if kind == "dml" {
+					pool = []string{"DELETE t WHERE (a, b) = (1, 2)", "INSERT INTO t (a) VALUES ((1, 2))", "UPDATE t SET a = (1, (2)).x WHERE TRUE"}
+				} else {
+					pool = []string{"SELECT (1, 2), (3, 4) AS t, (a, b).x, (5, (6))", "SELECT 1", "SELECT [1, 2][OFFSET(0)]", "SELECT NEW T {a: 1, b {c: 2}}", "SELECT CAST(x AS ARRAY<STRUCT<a INT64>>)", "SELECT a.b.c FROM (SELECT 1) AS s",
+						"DELETE t WHERE (a, b) = (1, 2)", "CALL p((1, 2))"}
+				}
+				if i == 0 {
+					dominant = rapid.IntRange(0, len(pool)-1).Draw(t, "dominant")
+				}
+				if rapid.IntRange(0, 4).Draw(t, "same") > 0 {
+					s = pool[dominant%len(pool)]
+				} else {
+					s = rapid.SampledFrom(pool).Draw(t, "short")
+				}
 			case 0, 1:
 				good := corpusGood()
 				s = good[rapid.IntRange(0, len(good)-1).Draw(t, "file")].Src
@@ -162,9 +192,35 @@ func runC11(ctx *harness.Ctx) {
 			default:
 				s = drawGen(t, k, rapid.SampledFrom([]int{1, 2, 2, 3}).Draw(t, "depth")).Text
 			}
-			if rapid.IntRange(0, 5).Draw(t, "break") == 0 {
+			breakDraw := rapid.IntRange(0, 11).Draw(t, "break")
+			if many && !(i == n/2 && rapid.IntRange(0, 9).Draw(t, "break-one") == 0) {
+				breakDraw = 11 // long lists are mostly intact: at most one broken piece, in 10% of them
+			}
+			switch breakDraw {
+			case 0, 1:
 				s = mutate.Tokens(t, s, 2)
 				broken = true
+			case 2:
+				// a separator inside the statement: a ',' turned into ';' / a ';' inserted at a token boundary.
+				// The splitter cuts there, so the list parser must too.
+				ps := mutate.Split(s)
+				if len(ps) > 1 {
+					var commas []int
+					for i, p := range ps {
+						if p.Raw == "," {
+							commas = append(commas, i)
+						}
+					}
+					if len(commas) > 0 && rapid.Bool().Draw(t, "comma-to-semi") {
+						ps[commas[rapid.IntRange(0, len(commas)-1).Draw(t, "which")]].Raw = ";"
+					} else {
+						i := rapid.IntRange(1, len(ps)-1).Draw(t, "at")
+						ps[i].Lead = " ; " + ps[i].Lead
+					}
+					s = mutate.Join(ps)
+					broken = true
+					ctx.Class("separator-inside-statement")
+				}
 			}
 			// a piece must not contain a top-level ';' of its own nor end inside a line comment
 			s = strings.TrimRight(s, " \n;")
